@@ -114,6 +114,10 @@ def expected_value(kind, status):
     return -(status & 0x7F)
 
 
+def last_poll_of(w, start):
+    return max((t for t, _, _ in w.polls), default=start)
+
+
 def run_wait_case(case, acc):
     """case: kind, exit_at, status, timeout, eintr_at"""
     env = setup()
@@ -216,12 +220,18 @@ def run_wait_case(case, acc):
                 if T is not None and T <= end + 1e-12:
                     # the process had already ended when TimeoutExpired was raised: was it seen by the last poll?
                     last_poll = max((t for t, _, _ in w.polls), default=start)
+                    lastp = [x for x in w.polls if x[0] == last_poll]
                     if T <= last_poll + 1e-12:
                         mech = "timeout_although_exit_seen_by_last_poll"
-                        lastp = [x for x in w.polls if x[0] == last_poll]
                         if any(x[2] == "EINTR" for x in lastp):
                             mech = "timeout_raised_after_interrupted_poll_without_retry"
                         viols.append((mech, ctx + f" exit +{T - start:.6f} last poll +{last_poll - start:.6f}"))
+        if r[0] == "timeout" and timeout is not None and T is not None and last_poll_of(w, start) + 1e-12 < T <= end + 1e-12:
+            # the process ended after the last poll but before TimeoutExpired was raised: the statement allows the
+            # exception only if the deadline passed with the process still alive, i.e. a poll at the raising instant
+            if not any(x[2] == "EINTR" for x in w.polls if x[0] == last_poll_of(w, start)):
+                viols.append(("timeout_raised_without_final_poll", ctx + f" exit +{T - start:.6f} last poll +{last_poll_of(w, start) - start:.6f} "
+                                                                         f"raised +{end - start:.6f}"))
         if T is not None and timeout is not None:
             if abs(T - deadline) <= 0.04:
                 nontrivial = True
